@@ -9,7 +9,7 @@
 -/
 import EG.Lemmas.Target
 namespace EG.C01
-open EG
+open EG EG.Tgt
 
 /-- Call by call the trait defaults offer the target exactly the writes of the documented meaning —
 the same list, in the same order — for every box, every area (zero sized, outside the box,
